@@ -4,6 +4,7 @@ import itertools
 
 from vt.world import World
 from vt import monitors as M
+from vt.bus import order_fingerprint
 from ref import codec as C
 
 PROPERTY = 'C04'
@@ -188,6 +189,7 @@ def run_case(case):
                   end=[('N%d' % i, int(state[i]), addr[i]) for i in range(n)],
                   frames=[f.brief() for f in W.bus.frames[:10]])
     res = dict(violations=list(viol), inconclusive=None, sig=sig, nontrivial=obs['contested_addresses'] > 0, obs=obs, sample=sample)
+    res['fingerprint'] = order_fingerprint(W.bus.frames)
     if case.get('trace'):
         res['trace'] = [f.brief() for f in W.bus.frames]
     W.close()
